@@ -98,7 +98,7 @@ def handleGet (f : List String) : String × String × String :=
       let tags := s!"get za={cfg.zoneAware} rf={cfg.rf} op={opName op} n={bucket d.length} res={errS} " ++
         s!"ext={min nExt 2} unh={min nUnh 2} key={keyClass all key} maxtok={all.contains maxToken} " ++
         s!"tokenless={d.any (·.tokens.isEmpty)} dropped={obsToks != all} api={(apiS.take 3).toString} " ++
-        s!"ro={d.any (·.ro)} excl={!excluded.isEmpty} wf={wf}"
+        s!"ro={d.any (·.ro)} excl={!excluded.isEmpty} wf={wf} unsorted={d.any fun i => sortNat i.tokens != i.tokens}"
       (diff, judge, tags)
     | _, _, _, _, _, _, _ => ("bad-input", "-", "-")
   | _ => ("bad-fields", "-", "-")
